@@ -79,5 +79,7 @@ fn open_buffer_of_an_included_file_wins_over_the_disk() {
     // watchdog: a blocked main loop cannot be interrupted from inside the runtime
     std::thread::spawn(|| { std::thread::sleep(Duration::from_secs(60)); eprintln!("WITNESS the server did not answer within 60 s (blocked main loop)"); std::process::exit(3); });
     let rt = tokio::runtime::Builder::new_multi_thread().enable_all().build().unwrap();
-    if let Err(e) = rt.block_on(run()) { panic!("WITNESS {e}"); }
+    let r = rt.block_on(run());
+    let _ = std::fs::remove_dir_all(std::env::temp_dir().join(format!("c12_witness_{}", std::process::id())));
+    if let Err(e) = r { panic!("WITNESS {e}"); }
 }
